@@ -22,6 +22,7 @@
 
 use crate::codec::SketchBytes;
 use crate::codec::SketchSlice;
+use crate::codec::assert::ensure_remaining;
 use crate::codec::assert::insufficient_data;
 use crate::codec::family::Family;
 use crate::common::NumStdDev;
@@ -287,6 +288,7 @@ impl Array8 {
         // The register array is stored in full in both the compact and the updatable form
         // (for HLL_6 and HLL_8 the two forms differ in the flag only).
         let _ = compact;
+        ensure_remaining(&cursor, k, 1, "data")?;
         let mut data = vec![0u8; k];
         cursor
             .read_exact(&mut data)
